@@ -1,7 +1,7 @@
 (* Proofs/Count.v — counting the entries of a positive map that satisfy a predicate: defined by recursion over the map's own
    tree, equal to the length of the filtered element list, and with an exact law for a single write. *)
 From Hive.Base Require Import Prelude.
-Open Scope Z_scope.
+Local Open Scope Z_scope.
 
 Definition b2z (b : bool) : Z := if b then 1 else 0.
 Fixpoint cnt {A} (P : A -> bool) (m : pmap A) : Z :=
